@@ -180,3 +180,85 @@ func genMerge(r *rand.Rand) *Program {
 	}
 	return p
 }
+
+// programs built around a snapshot iterator that stays open while the level keeps writing: many keys under one
+// prefix (node4 -> node16 -> node48 -> node256 growth and prefix splits happen WHILE the iterator walks the tree),
+// overwrites, deletes, nested levels that are cleaned up
+func genScanWhileWriting(r *rand.Rand, kind string) *Program {
+	p := &Program{Target: kind}
+	var prefix []byte
+	for i := r.Intn(4); i > 0; i-- {
+		prefix = append(prefix, []byte{0, 'a', 'b', 0xff}[r.Intn(4)])
+	}
+	if kind == "txn" && len(prefix) == 0 {
+		prefix = []byte{'a'}
+	}
+	fan := 4 + r.Intn(60)
+	if r.Intn(4) == 0 {
+		fan = 70 + r.Intn(120) // more than one batch of the batched snapshot iterator (32, then 64, ...)
+	}
+	seen := map[string]bool{}
+	var pool [][]byte
+	for len(pool) < fan {
+		k := append(append([]byte{}, prefix...), byte(r.Intn(256)))
+		if r.Intn(4) == 0 {
+			k = append(k, []byte{0, 'x', 0xff}[r.Intn(3)])
+		}
+		if r.Intn(9) == 0 {
+			k = append(k, bytes.Repeat([]byte{'p'}, 21+r.Intn(8))...) // longer than the in-node prefix
+		}
+		if !seen[string(k)] {
+			seen[string(k)] = true
+			pool = append(pool, k)
+		}
+	}
+	pick := func() []byte { return pool[r.Intn(len(pool))] }
+	for i := 0; i < fan/2; i++ {
+		p.Ops = append(p.Ops, Op{Op: "set", K: hx(pick()), V: hx(genValue(r, false))})
+	}
+	if r.Intn(2) == 0 {
+		p.Ops = append(p.Ops, Op{Op: "del", K: hx(pick())})
+	}
+	p.Ops = append(p.Ops, Op{Op: "staging"})
+	depth := 1
+	lo, hi := []byte(nil), []byte(nil)
+	if r.Intn(3) == 0 {
+		lo = pick()
+	}
+	if r.Intn(3) == 0 {
+		hi = pick()
+	}
+	p.Ops = append(p.Ops, Op{Op: "sitnew", Lo: hx(lo), Hi: hx(hi), H: r.Intn(2)})
+	for i := 0; i < 30+fan; i++ {
+		switch x := r.Intn(20); {
+		case x < 7:
+			p.Ops = append(p.Ops, Op{Op: "sitnext", ID: 1 + r.Intn(3)})
+		case x < 13:
+			p.Ops = append(p.Ops, Op{Op: "set", K: hx(pick()), V: hx(genValue(r, false))})
+		case x < 15:
+			p.Ops = append(p.Ops, Op{Op: "del", K: hx(pick())})
+		case x < 16:
+			if depth < 3 {
+				depth++
+				p.Ops = append(p.Ops, Op{Op: "staging"})
+			}
+		case x < 17:
+			if depth > 1 {
+				depth--
+				if r.Intn(2) == 0 {
+					p.Ops = append(p.Ops, Op{Op: "cleanup", H: -1})
+				} else {
+					p.Ops = append(p.Ops, Op{Op: "release", H: -1})
+				}
+			}
+		case x < 18:
+			p.Ops = append(p.Ops, Op{Op: "get", K: hx(pick())})
+		case x < 19:
+			p.Ops = append(p.Ops, Op{Op: "uflags", K: hx(pick()), F: []int{r.Intn(22)}})
+		default:
+			p.Ops = append(p.Ops, Op{Op: "siter"})
+		}
+	}
+	p.Ops = append(p.Ops, Op{Op: "sitnext", ID: 1000}, Op{Op: "iter"}, Op{Op: "cleanup", H: -1}, Op{Op: "iter"})
+	return p
+}
